@@ -1068,6 +1068,19 @@ STD_DESCRIPTION = {
 
 
 def replay(ctx, data):
+    if data.get("entry_point_check"):
+        class _C:
+            def count(self, *a, **k): pass
+            def hist(self, *a, **k): pass
+            def violation(self, *a, **k): pass
+        tmp = tempfile.mkdtemp(prefix="c07-replay-")
+        try:
+            fails = hardening_checks(_C(), tmp)
+        finally:
+            shutil.rmtree(tmp, ignore_errors=True)
+        hit = [f for f in fails if f[0] == data["entry_point_check"]]
+        print(f"entry-point check {data['entry_point_check']!r}:", "FAILS: " + hit[0][1] if hit else "OK")
+        return 1 if hit else 0
     spec = data.get("triangle")
     if not spec:
         print("replay data holds no triangle:", json.dumps(data, default=str)[:2000])
